@@ -64,6 +64,7 @@ EvalE(e, env) ==
      [] e.op = "or"  -> EvalE(e.a, env) \/ EvalE(e.b, env)
      [] e.op = "not" -> ~EvalE(e.a, env)
      [] e.op = "ite" -> IF EvalE(e.c, env) THEN EvalE(e.a, env) ELSE EvalE(e.b, env)
+     [] e.op = "blk" -> EvalE(e.b, (e.n :> EvalE(e.a, env)) @@ env)      \* { let n = a; b }
      [] e.op = "some" -> Some(EvalE(e.a, env))
      [] e.op = "none" -> None
      [] e.op \in {"tup", "prod"} -> [ i \in 1..Len(e.es) |-> EvalE(e.es[i], env) ]
@@ -263,6 +264,7 @@ RenE(e, ren) ==
      [] e.op \in BinOps -> [e EXCEPT !.a = RenE(@, ren), !.b = RenE(@, ren)]
      [] e.op \in UnOps -> [e EXCEPT !.a = RenE(@, ren)]
      [] e.op = "ite" -> [e EXCEPT !.c = RenE(@, ren), !.a = RenE(@, ren), !.b = RenE(@, ren)]
+     [] e.op = "blk" -> [e EXCEPT !.n = RenName(@, ren), !.a = RenE(@, ren), !.b = RenE(@, ren)]
      [] e.op \in {"tup", "prod"} -> [e EXCEPT !.es = [ i \in DOMAIN @ |-> RenE(@[i], ren) ]]
      [] e.op \in {"proj", "pproj"} -> [e EXCEPT !.a = RenE(@, ren)]
      [] OTHER -> e
